@@ -64,6 +64,9 @@ func enumerate(tier string, emit func(string)) {
 	if only("r") {
 		enumReader(tier, emit)
 	}
+	if only("b") {
+		enumBare(emit)
+	}
 }
 
 func execCase(spec string) engine.Result {
@@ -78,6 +81,8 @@ func execCase(spec string) engine.Result {
 		return execReader(spec)
 	case strings.HasPrefix(spec, "m|"):
 		return execFormat(spec)
+	case strings.HasPrefix(spec, "b|"):
+		return execBare(spec)
 	}
 	var res engine.Result
 	res.Fail("harness:bad-spec", spec)
